@@ -436,7 +436,7 @@ class FullOps(TorchCalls):
                 self.clear("q", f"element-wise {fn} over the column axis", node)
             dtype = "Bool" if fn in ("isfinite", "isnan", "isinf", "logical_not") else a0.dtype
             return a0.but(deg=deg, q=q, z=a0.z and (zero_ok or not has_c), alias=False, span=a0.span and fn in ("neg", "negative"),
-                          poly=None, dtype=dtype, idx_of=None, size_of=None)
+                          poly=(-a0.poly if fn in ("neg", "negative") and a0.poly is not None else None), dtype=dtype, idx_of=None, size_of=None)
         if fn in ("nan_to_num",):
             self.ev("assumption", node, what="nan_to_num treated as identity on finite values")
             return a0.but(alias=False)
